@@ -307,6 +307,11 @@ def worker_main(argv):
                 continue
             sc["seed"] = rs
         status, payload = execute_isolated(engine, sc, tier, timeout)
+        if status == "timeout":
+            # a run is deterministic, so repeating it cannot hide anything; a machine that is busy
+            # with other checks must not turn a slow run into a harness error
+            summ["slow_runs"] = summ.get("slow_runs", 0) + 1
+            status, payload = execute_isolated(engine, sc, tier, timeout * 4)
         summ["runs"] += 1
         if status != "ok":
             summ["harness_errors"].append({"index": i, "status": status,
@@ -542,6 +547,7 @@ def finish(prop, tier, batch_seed, engine, summaries, harness, wall_s, write_ev=
             "stubs": engine.stubs(),
             "known_findings_printed": sorted(printed_known),
             "wall_stopped_early": any(s.get("wall_stop") for s in summaries),
+            "slow_runs_repeated": sum(s.get("slow_runs", 0) for s in summaries),
             "workers": len(summaries),
         },
         "assumptions": engine.assumptions(),
